@@ -46,8 +46,9 @@ func cacheWrappers(c *core.Ctx, pkg *packages.Package) map[string]string {
 
 func runC19(c *core.Ctx) {
 	c.Rule("R1", "wrappers forward each method only to the same-named inner method", 18)
-	c.Rule("R2", "uniform key/value transforms (versioned keys, fresh snappy encodings, decoded-only results)", 12)
+	c.Rule("R2", "uniform key/value transforms (versioned keys with an injective prefix map, fresh snappy encodings, decoded-only results)", 14)
 	c.Rule("R3", "LRU layer: lock, expiry check, write-through order, Add-on-success, default TTL back-fill, delete order", 8)
+	c.Rule("R5", "wrappers never short-circuit a mutation: the inner same-named call is on every path", 10)
 	c.Rule("R4", "memcached placement: natural-sorted resolved list, jump hash under lock, pure hash", 4)
 	pkg := c.Prog.Pkg("cache")
 	if pkg == nil {
@@ -94,6 +95,29 @@ func runC19(c *core.Ctx) {
 	if len(wr) < 3 {
 		c.Undec("R1", "wrappers", pkg.Syntax[0].Pos(), fmt.Sprintf("expected ≥3 wrapper types, found %v", keys(wr)))
 	}
+	// R5: mutations are never short-circuited: the inner same-named call is executed on every path
+	for _, tn := range keys(wr) {
+		inner := "recv." + wr[tn]
+		for _, m := range []string{"Delete", "Set", "SetAsync", "SetMultiAsync", "Add"} {
+			fn := an.FindFunc(pkg, tn+"."+m)
+			if fn == nil {
+				continue
+			}
+			g := fn.Graph()
+			var tgt []an.Loc
+			for _, call := range fn.Calls(false) {
+				if sel, ok := call.Expr.Fun.(*ast.SelectorExpr); ok && fn.Canon(sel.X) == inner && sel.Sel.Name == m {
+					tgt = append(tgt, g.Locate(call.Expr))
+				}
+			}
+			if len(tgt) != 1 {
+				c.Undec("R5", "type="+tn+":method="+m, fn.Pos(), fmt.Sprintf("expected one inner %s call in the method body, found %d", m, len(tgt)))
+				continue
+			}
+			ex := g.Exec(g.EntryLoc(), tgt, func(ast.Expr, an.Store) an.Tri { return an.U }, an.ExecOpts{IgnorePanic: true})
+			c.Check(ex.Must[0], "R5", "type="+tn+":method="+m, fn.Pos(), fmt.Sprintf("the inner cache's %s is reached on every path of the wrapper's %s (a mutation — in particular a delete — is never answered from local knowledge alone): %d paths", m, m, ex.Paths), ex.Paths)
+		}
+	}
 	c19Versioned(c, pkg)
 	c19Snappy(c, pkg)
 	c19LRU(c, pkg)
@@ -103,6 +127,28 @@ func runC19(c *core.Ctx) {
 // argTransforms: for the single inner call of method m, verifies that the argument of the given type is produced by `want`.
 func c19Versioned(c *core.Ctx, pkg *packages.Package) {
 	tn := "Versioned"
+	// the key transform is injective: prefix + key on every path, undone by TrimPrefix of the same prefix
+	for _, d := range []struct{ name, want string }{{"Versioned.addVersion", "(recv.versionPrefix + p0)"}, {"Versioned.removeVersion", "strings.TrimPrefix(p0, recv.versionPrefix)"}} {
+		fn := an.FindFunc(pkg, d.name)
+		if fn == nil {
+			c.Miss("R2", "func="+d.name, "not found")
+			continue
+		}
+		c.Analysed(fn.String())
+		var rets []string
+		for _, b := range fn.Graph().Blocks {
+			if r := an.ReturnOf(b); r != nil && len(r.Results) == 1 {
+				rets = append(rets, fn.Canon(r.Results[0]))
+			}
+		}
+		ok := len(rets) > 0
+		for _, r := range rets {
+			if r != d.want && r != strings.Trim(d.want, "()") {
+				ok = false
+			}
+		}
+		c.Check(ok, "R2", "func="+d.name, fn.Pos(), fmt.Sprintf("every return is %s (returns: %v): distinct caller keys map to distinct backend keys within a version", d.want, rets), 1)
+	}
 	keyRe := regexp.MustCompile(`^recv\.addVersion\((p\d|each\(p\d\)|keyof\(p\d\))\)$`)
 	for _, m := range []string{"SetAsync", "Set", "Add", "Delete"} {
 		fn := an.FindFunc(pkg, tn+"."+m)
